@@ -54,7 +54,7 @@ Proof.
   rewrite app_nil_r. apply filter_all. rewrite Forall_forall in HA. intros y Hy. apply N.ltb_lt. apply HA. exact Hy.
 Qed.
 
-Lemma filter_map_std (f g : N -> bool) l : Forall seg_std l ->
+Lemma filter_map_std (f : N -> bool) l : Forall seg_std l ->
   map seg_blk (filter (fun x => f (snum x)) l) = filter (fun b => f (bnum b)) (map seg_blk l).
 Proof.
   induction 1 as [|x l Hx Hl IH]; [reflexivity|]. cbn [filter map]. destruct Hx as [_ Hn]. rewrite Hn.
@@ -236,6 +236,219 @@ Section Life.
       split; [intros y Hy; rewrite <- HnL; apply Hhi; exact Hy|].
       split; [exact Hstd|]. split; [exact Hlhi|].
       apply (linked_sorted U U_id U_uniq U_up _ _ Hlhi HhiU).
+    Qed.
+
+    Lemma last_of_app {A} (P0 Q0 l0 : list A) x : P0 ++ Q0 = l0 ++ [x] -> Q0 <> [] -> exists Q1, Q0 = Q1 ++ [x].
+    Proof.
+      intros H Hne. destruct Q0 as [|y Q1 _] using rev_ind; [congruence|]. rewrite app_assoc in H.
+      apply last_snoc_eq in H as [_ ->]. exists Q1. reflexivity.
+    Qed.
+
+    (* the burst answered in this state for the cursor of an earlier New / Undo event, applied to the consumer
+       right after that event (final up to the cursor LIB), gives the consumer of this state *)
+    Lemma resume_at e ck P Q F0 evs :
+      CurAt U a e ck P Q (libblk a P) -> Fin = P ++ F0 ->
+      linked (bid (libblk a P)) F0 -> Forall (fun x => In x U /\ bnum (libblk a P) < bnum x) F0 ->
+      nu e ->
+      blocks_from_cursor s (ev_cursor e) = BOk evs ->
+      cons_fold (mkCons (cs_stack ck) (length (filter (fun b => bnum b <=? rn (elib e)) (cs_stack ck))) true) evs
+        = Some (mkCons S (length Fin) true).
+    Proof.
+      intros [Hstack HLU Helib HPf HQf Hlq Hbk Hcb Hnew Hundo] HF Hl0 HF0 Hnu HB.
+      set (L := libblk a P) in *. set (cur := ev_cursor e) in *.
+      assert (Hcl : cu_lib cur = bref L) by exact Helib.
+      assert (Hcbk : cu_blk cur = bref (eblk e)) by exact Hcb.
+      assert (Hcs : cu_step cur = estep e) by reflexivity.
+      destruct post_head as (hd & p0 & Hls & HhU & _ & _ & _ & _ & _ & HFin).
+      pose proof (inv_wf_state a s Fin S Ha HI) as W. pose proof W as [[Wst _] _].
+      pose proof (i_db U _ _ _ _ _ HI) as Hd. pose proof (di_inU U _ _ Hd) as HinU.
+      (* the burst *)
+      unfold blocks_from_cursor in HB. rewrite (di_has_lib U (R a) _ Hd), Hls in HB. cbn [negb] in HB.
+      destruct (complete_segment (db s) (bref hd)) as [[sg reach]|] eqn:E; cbv beta iota in HB; [|discriminate HB].
+      assert (Hr : reach = true).
+      { destruct reach; [reflexivity|]. destruct sg; cbv beta iota in HB; discriminate HB. }
+      subst reach.
+      assert (HB' : from_cursor_loop (fuel_of (db s)) s hd sg cur = BOk evs).
+      { destruct sg as [|s0 sg']; cbv beta iota in HB; [discriminate HB|].
+        destruct (rn (cu_lib cur) <? snum s0); [discriminate HB | exact HB]. }
+      clear HB.
+      assert (Hlibin : block_in (ri (cu_lib cur)) sg = true).
+      { destruct (block_in (ri (cu_lib cur)) sg) eqn:Hx; [reflexivity|]. exfalso.
+        exact (loop_foreign_lib s hd sg cur _ Hx evs HB'). }
+      assert (HlibinL : block_in (bid L) sg = true) by (rewrite Hcl in Hlibin; exact Hlibin).
+      destruct (above_lib_part hd sg true P F0 Hls E HF HLU Hl0 HF0 HlibinL)
+        as (lo & xL & hi & p & Hsplit & HbL & HnL & HsL & HS & HH & HpU & Hlo & Hhi & Hstd & Hlhi & Hsorted).
+      destruct (post_segment hd sg true Hls E) as (Hgood & Hst & HsU & _).
+      change (libblk a P) with L in HbL, HnL, HsL, Hlo, Hhi, Hlhi.
+      set (H := map seg_blk hi) in *.
+      assert (HstdH : Forall seg_std hi) by (exact (Forall_inv_tail Hstd)).
+      assert (HHU : Forall (fun y => In y U) H).
+      { apply Forall_forall. intros y Hy. apply in_map_iff in Hy as (x & <- & Hx). rewrite Forall_forall in HsU. apply HsU.
+        rewrite Hsplit. apply in_or_app. right. right. exact Hx. }
+      assert (HHab : Forall (fun y => bnum L < bnum y) H).
+      { apply Forall_forall. intros y Hy. apply in_map_iff in Hy as (x & <- & Hx). rewrite Forall_forall in HstdH.
+        destruct (HstdH x Hx) as [_ Hn]. rewrite <- Hn. apply Hhi. exact Hx. }
+      (* everything above the cursor LIB *)
+      assert (Habove : forall c', cu_lib c' = cu_lib cur -> above_seg c' sg = hi).
+      { intros c' Hc'. unfold above_seg, above_clib. rewrite Hc', Hcl. cbn [bref rn]. rewrite Hsplit, filter_app. cbn [filter].
+        destruct (N.ltb_spec (bnum L) (snum xL)) as [Hcx|Hcx]; [exfalso; lia|].
+        rewrite filter_none, filter_all; [reflexivity | |].
+        - intros y Hy. apply N.ltb_lt. apply Hhi. exact Hy.
+        - intros y Hy. apply N.ltb_ge. specialize (Hlo y Hy). lia. }
+      assert (Hnfin : length (filter (final_now s) hi) = length F0).
+      { destruct (inv_lib U cfg a s Fin S Ha HI) as [_ Hlib].
+        rewrite <- (map_length seg_blk).
+        rewrite (filter_ext_in' (final_now s) (fun x => (fun n => n <=? bnum (libblk a Fin)) (snum x))).
+        2:{ intros x _. unfold final_now. rewrite Hlib. reflexivity. }
+        rewrite (filter_map_std (fun n => n <=? bnum (libblk a Fin)) hi HstdH). fold H. rewrite HH.
+        fold (upto (bnum (libblk a Fin)) (F0 ++ map eb p)). unfold upto. rewrite filter_app.
+        fold (upto (bnum (libblk a Fin)) F0) (upto (bnum (libblk a Fin)) (map eb p)).
+        rewrite upto_all, upto_none, app_nil_r; [reflexivity | |].
+        - eapply Forall_impl; [|exact HpU]. cbn beta. tauto.
+        - apply Forall_forall. intros x0 Hx0. rewrite Forall_forall in HFin.
+          assert (Hin0 : In x0 Fin) by (rewrite HF; apply in_or_app; right; exact Hx0).
+          destruct (HFin x0 Hin0) as [_ G]. exact G. }
+      (* the consumer at the cursor *)
+      assert (Hck : length (filter (fun b => bnum b <=? rn (elib e)) (cs_stack ck)) = length P).
+      { rewrite Hstack, filter_rev_len, filter_app, app_length, Helib. cbn [bref rn].
+        fold (upto (bnum L) P) (upto (bnum L) Q). rewrite upto_all, upto_none; [cbn [length]; lia | |].
+        - eapply Forall_impl; [|exact HQf]. cbn beta. tauto.
+        - eapply Forall_impl; [|exact HPf]. cbn beta. tauto. }
+      rewrite Hck, Hstack.
+      assert (Htarget : rev (P ++ map seg_blk hi) = S).
+      { fold H. rewrite HH, HS, HF, <- !app_assoc. reflexivity. }
+      assert (Hlen : (length P + length F0)%nat = length Fin) by (rewrite HF, app_length; reflexivity).
+      assert (Hlinks0 : stack_links P hi).
+      { unfold stack_links. destruct (rev P) as [|pl r] eqn:EP; [exact I|].
+        assert (pl = L) by (unfold L, libblk; rewrite EP; reflexivity). subst pl.
+        pose proof Hlhi as Hl2. unfold H in Hl2. clear -Hl2. destruct hi as [|x hi']; [exact I|].
+        cbn [map linked] in Hl2. tauto. }
+      (* a block above L whose id is on the segment sits in hi *)
+      assert (Honhi : forall B, In B U -> bnum L < bnum B -> block_in (bid B) sg = true ->
+                exists h1 xb h2, hi = h1 ++ xb :: h2 /\ H = map seg_blk h1 ++ B :: map seg_blk h2).
+      { intros B HBU HBn HBin. apply block_in_spec in HBin as (xb & Hxb & Hsb).
+        assert (Hbb : seg_blk xb = B).
+        { apply U_uniq; [rewrite Forall_forall in HsU; apply HsU; exact Hxb | exact HBU|].
+          destruct Hgood as [Hgs _ _ _]. rewrite Forall_forall in Hgs. destruct (Hgs xb Hxb) as [G1 _]. congruence. }
+        assert (Hnb : snum xb = bnum B).
+        { destruct Hgood as [Hgs _ _ _]. rewrite Forall_forall in Hgs. destruct (Hgs xb Hxb) as [_ G2]. congruence. }
+        rewrite Hsplit in Hxb. apply in_app_or in Hxb as [Hxb|[Hxb|Hxb]].
+        - specialize (Hlo xb Hxb). lia.
+        - subst xb. lia.
+        - apply in_split in Hxb as (h1 & h2 & ->). exists h1, xb, h2. split; [reflexivity|].
+          unfold H. rewrite map_app. cbn [map]. rewrite Hbb. reflexivity. }
+      (* a run from L ending with a block of hi is the beginning of hi *)
+      assert (Hbegin : forall Q0 B h1 h2, H = map seg_blk h1 ++ B :: map seg_blk h2 ->
+                linked (bid L) (Q0 ++ [B]) -> Forall (fun y => In y U) (Q0 ++ [B]) -> Q0 = map seg_blk h1).
+      { intros Q0 B h1 h2 HHs Hlk0 HU0. apply (linked_unique U U_id U_uniq U_up Q0 (map seg_blk h1) (bid L) B); try assumption.
+        - rewrite HHs in Hlhi. change (B :: map seg_blk h2) with ([B] ++ map seg_blk h2) in Hlhi. rewrite app_assoc in Hlhi.
+          eapply linked_prefix. exact Hlhi.
+        - rewrite HHs in HHU. change (B :: map seg_blk h2) with ([B] ++ map seg_blk h2) in HHU. rewrite app_assoc in HHU.
+          apply Forall_app in HHU. tauto. }
+      assert (HQU : Forall (fun y => In y U) Q) by (eapply Forall_impl; [|exact HQf]; cbn beta; tauto).
+      destruct (block_in (ri (cu_blk cur)) sg) eqn:Hblkin.
+      - (* the fast path *)
+        assert (Hloop : from_cursor_loop (fuel_of (db s)) s hd sg cur = BOk (from_cursor_fast s hd sg cur)).
+        { unfold fuel_of. cbn [from_cursor_loop]. rewrite Hblkin, Hlibin. reflexivity. }
+        rewrite Hloop in HB'. injection HB' as <-.
+        pose proof (c05_fast_path_consumer_proof s hd sg cur P true Hgood) as Hfast. cbv zeta in Hfast.
+        rewrite (Habove cur eq_refl) in Hfast.
+        assert (Hheld : map seg_blk (held_seg cur sg) = Q).
+        { rewrite held_seg_eq, (Habove cur eq_refl).
+          rewrite (filter_ext_in' _ (fun x => (fun n => if is_undo cur then n <? rn (cu_blk cur) else n <=? rn (cu_blk cur)) (snum x))).
+          2:{ intros x _. apply not_held_thr. }
+          rewrite (filter_map_std (fun n => if is_undo cur then n <? rn (cu_blk cur) else n <=? rn (cu_blk cur)) hi HstdH).
+          fold H. rewrite Hcbk in *. cbn [bref ri rn] in *. unfold is_undo. rewrite Hcs.
+          destruct Hnu as [HeN|HeU].
+          - (* New *)
+            rewrite HeN. cbn [matches_undo]. fold (upto (bnum (eblk e)) H).
+            destruct (Hnew HeN) as [l0 Hl0'].
+            destruct Q as [|q0 Q0] eqn:EQ.
+            + rewrite app_nil_r in Hl0'.
+              assert (HeL : eblk e = L) by (unfold L, libblk; rewrite Hl0', rev_app_distr; reflexivity).
+              rewrite HeL. apply upto_none. exact HHab.
+            + rewrite <- EQ in *. destruct (last_of_app _ _ _ _ Hl0') as [Q1 HQ1]; [rewrite EQ; discriminate|].
+              assert (Hbn : bnum L < bnum (eblk e)).
+              { rewrite HQ1 in HQf. apply Forall_app in HQf as [_ HQf]. destruct (Forall_inv HQf) as [_ G]. exact G. }
+              destruct (Honhi (eblk e) Hbk Hbn Hblkin) as (h1 & xb & h2 & Hhi' & HHs).
+              rewrite HHs. rewrite HHs in Hsorted. rewrite (upto_split _ _ _ Hsorted), HQ1. f_equal. symmetry.
+              apply (Hbegin Q1 (eblk e) h1 h2 HHs); rewrite <- HQ1; assumption.
+          - (* Undo *)
+            rewrite HeU. cbn [matches_undo]. fold (under (bnum (eblk e)) H).
+            destruct (Hundo HeU) as [Hpar Hbn].
+            destruct (Honhi (eblk e) Hbk Hbn Hblkin) as (h1 & xb & h2 & Hhi' & HHs).
+            rewrite HHs. rewrite HHs in Hsorted. rewrite (under_split _ _ _ Hsorted). symmetry.
+            apply (linked_unique_tip U U_id U_uniq U_up Q (map seg_blk h1) (bid L)); try assumption.
+            + rewrite HHs in Hlhi. eapply linked_prefix. exact Hlhi.
+            + rewrite HHs in HHU. apply Forall_app in HHU. tauto.
+            + rewrite <- Hpar. rewrite HHs in Hlhi. apply (linked_mid _ _ _ _ Hlhi). }
+        rewrite Hheld in Hfast. rewrite Hfast.
+        + rewrite Htarget, Hnfin, Hlen. reflexivity.
+        + intros _. exact Hlinks0.
+      - (* the forked path *)
+        destruct (c05_forked_path_proof s hd sg cur Wst Hst) as (Htotal & _ & Hwalk & _ & Hburst).
+        destruct (Hburst Hlibin Hblkin) as [_ Herr].
+        destruct Htotal as [(path & j & Hbr)|Hbroken]; [|rewrite (Herr Hbroken) in HB'; discriminate].
+        destruct (Hwalk path j Hbr) as (_ & (x & rest & Hpath & Hsx & Hundos) & Hjin).
+        destruct (seg_stored_junction _ _ _ Hst Hjin) as [je Hje].
+        rewrite Hcbk in Hblkin, Hbr, Hsx. cbn [bref ri] in Hblkin, Hbr, Hsx.
+        (* the universe chain from L to the cursor block *)
+        assert (HQ' : exists Q', linked (bid L) Q' /\ Forall (fun y => In y U) Q' /\ Q' <> [] /\ tip (bid L) Q' = bid (eblk e) /\
+                   ((estep e = SNew /\ Q' = Q) \/ (estep e = SUndo /\ Q' = Q ++ [eblk e]))).
+        { destruct Hnu as [HeN|HeU].
+          - destruct (Hnew HeN) as [l0 Hl0'].
+            destruct Q as [|q0 Q0] eqn:EQ.
+            + exfalso. rewrite app_nil_r in Hl0'.
+              assert (HeL : eblk e = L) by (unfold L, libblk; rewrite Hl0', rev_app_distr; reflexivity).
+              rewrite HeL, HlibinL in Hblkin. discriminate.
+            + rewrite <- EQ in *. destruct (last_of_app _ _ _ _ Hl0') as [Q1 HQ1]; [rewrite EQ; discriminate|].
+              exists Q. split; [exact Hlq|]. split; [exact HQU|]. split; [rewrite EQ; discriminate|].
+              split; [rewrite HQ1; apply tip_snoc | left; auto].
+          - destruct (Hundo HeU) as [Hpar Hbn]. exists (Q ++ [eblk e]).
+            split; [apply linked_app_iff; split; [exact Hlq | cbn [linked]; auto]|].
+            split; [apply Forall_app; split; [exact HQU | constructor; [exact Hbk | constructor]]|].
+            split; [destruct Q; discriminate|]. split; [apply tip_snoc | right; auto]. }
+        destruct HQ' as (Q' & HlQ' & HUQ' & HneQ' & HtQ' & Hkind).
+        rewrite <- HtQ' in Hbr.
+        destruct (branch_shape (db s) sg (bid L) HinU HlibinL Q' path j HlQ' HUQ' HneQ' Hbr)
+          as (Q1 & Q2 & HQ12 & Hmap & Hne2 & Hj).
+        set (jc := junction_cursor hd cur (mkR j (bnum (eb je)))).
+        assert (HQ1U : Forall (fun y => In y U) Q1 /\ linked (bid L) Q1).
+        { rewrite HQ12 in HUQ', HlQ'. apply Forall_app in HUQ'. split; [tauto | eapply linked_prefix; exact HlQ']. }
+        destruct HQ1U as [HQ1U HlQ1].
+        assert (HQ1ab : Forall (fun y => bnum L < bnum y) Q1).
+        { pose proof (linked_above U U_id U_uniq U_up Q1 L HLU HlQ1 HQ1U) as G. exact G. }
+        (* the junction block *)
+        assert (Hheld : map seg_blk (held_seg jc sg) = Q1).
+        { rewrite held_seg_eq, (Habove jc eq_refl).
+          rewrite (filter_ext_in' _ (fun x => (fun n => n <=? bnum (eb je)) (snum x))).
+          2:{ intros x0 _. rewrite not_held_thr. reflexivity. }
+          rewrite (filter_map_std (fun n => n <=? bnum (eb je)) hi HstdH). fold H. fold (upto (bnum (eb je)) H).
+          destruct Q1 as [|J Q1' _] using rev_ind.
+          - unfold tip in Hj. cbn in Hj. rewrite Hj, <- HsL in Hje.
+            assert (HxLin : In xL sg) by (rewrite Hsplit; apply in_or_app; right; left; reflexivity).
+            rewrite (Hst xL HxLin) in Hje. injection Hje as <-. fold (seg_blk xL). rewrite HbL. apply upto_none. exact HHab.
+          - rewrite tip_snoc in Hj. apply Forall_app in HQ1U as [_ HJ]. pose proof (Forall_inv HJ) as HJU. cbn beta in HJU.
+            apply Forall_app in HQ1ab as [_ HJa]. pose proof (Forall_inv HJa) as HJn. cbn beta in HJn.
+            assert (HeJ : eb je = J).
+            { apply U_uniq; [apply HinU; apply find_some in Hje; tauto | exact HJU|].
+              apply find_some in Hje as [_ Hk]. rewrite <- Hj. exact Hk. }
+            rewrite Hj in Hjin. destruct (Honhi J HJU HJn Hjin) as (h1 & xb & h2 & Hhi' & HHs).
+            rewrite HeJ, HHs. rewrite HHs in Hsorted. rewrite (upto_split _ _ _ Hsorted). f_equal. symmetry.
+            apply (Hbegin Q1' J h1 h2 HHs); [exact HlQ1|].
+            rewrite HQ12 in HUQ'. apply Forall_app in HUQ'. tauto. }
+        assert (HQdec : Q = Q1 ++ map seg_blk (rev (undos_of cur path))).
+        { rewrite Hundos, Hcs. destruct Hkind as [[HeN ->]|[HeU HQ'e]].
+          - rewrite HeN. cbn [step_eqb]. rewrite Hmap. exact HQ12.
+          - rewrite HeU. cbn [step_eqb]. rewrite Hpath in Hmap. cbn [rev] in Hmap. rewrite map_app in Hmap. cbn [map] in Hmap.
+            rewrite HQ'e, <- Hmap, app_assoc in HQ12. apply last_snoc_eq in HQ12. tauto. }
+        assert (Hbr' : branch_to (db s) sg (ri (cu_blk cur)) path j) by (rewrite Hcbk; cbn [bref ri]; rewrite <- HtQ'; exact Hbr).
+        assert (Hblkin' : block_in (ri (cu_blk cur)) sg = false) by (rewrite Hcbk; exact Hblkin).
+        destruct (c05_resume_partial_proof s hd sg cur path j je P true Wst Hst Hgood Hlibin Hblkin' Hbr' Hje) as (evs' & Hloop & Hfold).
+        + fold jc. intros _. rewrite (Habove jc eq_refl). exact Hlinks0.
+        + rewrite Hloop in HB'. injection HB' as <-. cbv zeta in Hfold. fold jc in Hfold.
+          rewrite Hheld, <- HQdec, (Habove cur eq_refl) in Hfold. rewrite Hfold.
+          rewrite Htarget, Hnfin, Hlen. reflexivity.
     Qed.
   End AtState.
 End Life.
